@@ -41,6 +41,7 @@ pub struct Profile {
     pub p_one_to_one: f64,
     pub p_many_aggs: f64,
     pub p_hidden_keys: f64,
+    pub p_keys_only: f64,
     pub p_schema_path: f64,
     pub p_cond_agg: f64,
     pub p_inner_where: f64,
@@ -87,6 +88,7 @@ impl Profile {
             p_one_to_one: 0.12,
             p_many_aggs: 0.02,
             p_hidden_keys: 0.03,
+            p_keys_only: 0.0,
             p_schema_path: 0.0,
             p_cond_agg: 0.04,
             p_inner_where: 0.5,
@@ -106,7 +108,7 @@ impl Profile {
             "C09" => Profile { p_one_to_one: 0.3, p_hidden_keys: 0.0, p_schema_path: 0.1, p_cond_agg: 0.15, p_where_fn: 0.2, p_where_col_cmp: 0.2, p_math_exprs: 0.2, p_count_of_unique: 0.6, p_fn_exprs: 0.25, p_modulo: 0.12, p_alias_shadow: 0.4, public_keys_only: true, benign_data: true, p_distinct: 0.12, p_row_privacy: 0.15, p_grouped: 0.65, ..base },
             "C04" => Profile { p_hidden_keys: 0.1, p_where_fn: 0.2, p_unsupported_agg: 0.08, p_key_via_agg: 0.25, p_nested_group: 0.08, p_nested: 0.0, need_private_key: true, p_grouped: 1.0, p_outer: 0.0, p_distinct: 0.05, ..base },
             "C16" => Profile { benign_data: true, full_catalogue: true, p_public_table: 1.0, p_synthetic: 0.3, ..base },
-            "C02" => Profile { p_hidden_keys: 0.08, p_where_fn: 0.1, p_pu_without_root: 0.08, p_extra_select: 0.05, p_join_of_subqueries: 0.05, p_on_or: 0.04, p_unsupported_agg: 0.08, p_cross: 0.04, p_outer_kinds: 0.05, p_multi_dp: 0.04, p_nested_group: 0.03, p_shared_cte: 0.08, p_plain: 0.25, p_synthetic: 0.4, p_public_table: 0.5, p_outer: 0.2, ..base },
+            "C02" => Profile { p_keys_only: 0.06, p_hidden_keys: 0.08, p_where_fn: 0.1, p_pu_without_root: 0.08, p_extra_select: 0.05, p_join_of_subqueries: 0.05, p_on_or: 0.04, p_unsupported_agg: 0.08, p_cross: 0.04, p_outer_kinds: 0.05, p_multi_dp: 0.04, p_nested_group: 0.03, p_shared_cte: 0.08, p_plain: 0.25, p_synthetic: 0.4, p_public_table: 0.5, p_outer: 0.2, ..base },
             _ => base,
         }
     }
@@ -935,6 +937,35 @@ pub fn generate(seed: u64, run: u64, prop: &str) -> Generated {
                 sql
             };
             tags.push("multi_dp".into());
+            let query = QuerySpec { from: vec![], where_: vec![], keys: vec![], aggs: vec![], having: None, outer: None, plain: None, cte: None, raw_sql: None, holders_override: None, inner_where: vec![], outer_group_by: false, extra_select: vec![], shadow_cte: None, hide_keys: false };
+            let base = Some((a, base_t.name.clone()));
+            let mut g = finish(seed, run, tables, synthetic, pu, params, query, base, tags, faults, &protected);
+            g.scenario.sql = sql;
+            g.scenario.query = None;
+            return g;
+        }
+    }
+
+    // a Reduce made of grouping keys only (own stream): `SELECT DISTINCT k FROM t` / `SELECT k FROM t
+    // GROUP BY k` - no aggregate pays for anything, the key set is all the query publishes
+    let mut rko = Rng::stream(seed, run, "keys_only");
+    if rko.chance(profile.p_keys_only) && !keyable.is_empty() {
+        let a = alias_of(&base_t.name);
+        let own_keys: Vec<&(String, ColSpec)> = keyable.iter().cloned().filter(|(q, c)| q.starts_with(&format!("{}.", a)) && !c.optional && c.ty != ColType::Bool).collect();
+        let pub_keys: Vec<&(String, ColSpec)> = own_keys.iter().cloned().filter(|(_, c)| public_set_of(&c.ty).is_some()).collect();
+        let pool = if rko.chance(0.75) && !pub_keys.is_empty() { pub_keys } else { own_keys };
+        if !pool.is_empty() {
+            let (kq, kc) = pool[rko.usize(pool.len())];
+            let other_aliases: Vec<String> = from.iter().skip(1).map(|f| format!("{}.", f.alias)).collect();
+            let own_where: Vec<String> = where_.iter().filter(|w| !other_aliases.iter().any(|o| w.contains(o.as_str()))).cloned().collect();
+            let wsql = if own_where.is_empty() || rko.chance(0.5) { String::new() } else { format!(" WHERE {}", own_where.join(" AND ")) };
+            let sql = match rko.below(3) {
+                0 => format!("SELECT DISTINCT {} AS k FROM {} AS {}{}", kq, base_t.name, a, wsql),
+                1 => format!("SELECT {} AS k FROM {} AS {}{} GROUP BY {}", kq, base_t.name, a, wsql, kq),
+                _ => format!("SELECT s.k AS k FROM (SELECT DISTINCT {} AS k FROM {} AS {}{}) AS s", kq, base_t.name, a, wsql),
+            };
+            tags.push(format!("keys:{}", if public_set_of(&kc.ty).is_some() { "pub" } else { "priv" }));
+            tags.push("keys_only".into());
             let query = QuerySpec { from: vec![], where_: vec![], keys: vec![], aggs: vec![], having: None, outer: None, plain: None, cte: None, raw_sql: None, holders_override: None, inner_where: vec![], outer_group_by: false, extra_select: vec![], shadow_cte: None, hide_keys: false };
             let base = Some((a, base_t.name.clone()));
             let mut g = finish(seed, run, tables, synthetic, pu, params, query, base, tags, faults, &protected);
